@@ -65,6 +65,14 @@ pub fn utils_q(f: &str, args: &[&str]) -> String {
             let d = text_remap(&mut v);
             o_list(std::iter::once(d as u128).chain(v.into_iter().map(|x| x as u128)))
         }
+        // prefetch_read_NTA on a slice of `n(0)` words (0 = empty slice) at an arbitrary offset
+        "prefetch_nta" => {
+            let data: Vec<u64> = vec![0x5555_5555_5555_5555; n(0) as usize];
+            prefetch_read_NTA(&data, n(1) as usize);
+            let d128: Vec<u128> = vec![7; n(0) as usize];
+            prefetch_read_NTA(&d128, n(1) as usize);
+            "U".into()
+        }
         "lens_ok" => "V:1".into(),
         _ => "bad-op".into(),
     }
